@@ -5,6 +5,7 @@ from ..ir import call_target, manager_call
 from ..tables import IN_PARAMS, ALLOWED_EXTERNALS, base_name
 from .. import shared
 
+RETRY_INLINED = True
 LEVEL = 'proof'
 
 
